@@ -57,6 +57,12 @@ inductive Act where
       asList=self.saveAsList, modal=self.modalResults)`), emitted by the extraction in front of the element's actions
       and again after every action that replaces the tokens (core.py:874-904) -/
   | name (n : List Char) (modal asList : Bool)
+  /-- the same binding when the tokens handed to `ParseResults(tokens, name, …)` are a *plain Python list* (or str), not a
+      ParseResults: what a leaf / Group / Suppress / NotAny returns (core.py:865-869) and what a token-replacing parse
+      action returns (core.py:903-910).  `__init__` then takes the other branches: a plain `[]` is a null value (nothing
+      bound, results.py:193); with asList the value is `ParseResults(toklist[0])` — the FIRST element only
+      (results.py:203) -/
+  | nameL (n : List Char) (modal asList : Bool)
   deriving Repr, Inhabited
 
 inductive Kind where
